@@ -14,7 +14,7 @@ import z3
 
 from . import seqs as SQ
 
-from .types import (TData, TSLICE, MObj, TBool, TDict, TEnum, TInt, TNone, TObj, TOpt, TPy, TReal, TRec, TSeq, TSet, TStr, TTup, Ty,
+from .types import (TKSet, TData, TSLICE, MObj, TBool, TDict, TEnum, TInt, TNone, TObj, TOpt, TPy, TReal, TRec, TSeq, TSet, TStr, TTup, Ty,
                     V, parse_ty)
 
 
@@ -220,6 +220,8 @@ class Engine:
         cond = z3.simplify(cond)
         if z3.is_true(cond) or self.spec_mode:
             return
+        if kind == "safe.key" and self.c.strict_lookup:
+            exc = None  # lookups on supplied mappings must be guarded by membership: their behaviour on absent keys is unspecified
         if exc is not None and (exc in self.c.raises or exc in self._handled):
             if st.guards:
                 raise OutOfSubset(node, "raising operation under a short-circuit guard")
@@ -335,6 +337,8 @@ class Engine:
         return self.getattr(base, attr, n, st)
 
     def getattr(self, base, attr, n, st):
+        if isinstance(base, MObj) and attr == "__dict__":
+            return ("dictview", base)
         if isinstance(base, MObj):
             if attr in base.attrs:
                 return base.attrs[attr]
@@ -553,6 +557,8 @@ class Engine:
         return t.as_string()
 
     def contains(self, cont, x, n, st):
+        if isinstance(cont, tuple) and cont and cont[0] == "dictview":
+            return z3.BoolVal(self.static_key(x, n) in cont[1].attrs)
         if isinstance(cont, MObj) and cont.cls == "StrKeyDict":
             return z3.BoolVal(self.static_key(x, n) in cont.attrs)
         if isinstance(cont, tuple):
@@ -567,6 +573,8 @@ class Engine:
                 return SQ.has(cont.t, x.t)
             if isinstance(ty, TSeq):
                 return SQ.has(cont.t, self.coerce(x, ty.elem, n).t)
+            if isinstance(ty, TKSet):
+                return SQ.has(ty.sort().keys(cont.t), ty.rec.get(x.t, ty.keyfield))
             if isinstance(ty, TDict):
                 return SQ.has(ty.sort().keys(cont.t), self.coerce(x, ty.k, n).t)
             if isinstance(ty, TSet):
@@ -590,6 +598,8 @@ class Engine:
                 return V(ty, ty.sort().some(self.coerce(v, ty.t, n).t))
             if ty is TReal and v.ty is TInt:
                 return V(TReal, z3.ToReal(v.t))
+            if isinstance(v.ty, TOpt) and v.ty.t == ty:
+                return V(ty, v.ty.sort().v(v.t))  # unwrapping: callers have established is_some (safe.none obligations at use sites)
             if isinstance(ty, TObj) and isinstance(v.ty, TObj) and ty.name == v.ty.name:
                 return V(ty, v.t)
         if isinstance(v, tuple) and isinstance(ty, TTup):
@@ -732,9 +742,47 @@ class Engine:
             return ("emptydict",)
         raise OutOfSubset(n, "non-empty dict display")
 
+    def keyed_for(self, ty):
+        for ks in self.c.keyed.values():
+            if ks.rec == ty:
+                return ks
+        return None
+
+    def kset_comprehension(self, n, st, src, body_node, ifs, target):
+        """{b(e) for e in S if c(e)} over a keyed set S: the body must preserve the key (obligation); the result keeps the
+        keys whose element passes the filter and maps each to b's payload."""
+        ty = src.ty
+        s_ = ty.sort()
+        st.fresh_n += 1
+        kv = z3.Const(f"kk!{st.fresh_n}", ty.k.sort())
+        inner = st.fork()
+        inner.decisions = st.decisions
+        keys = s_.keys(src.t)
+        inner.assume(SQ.has(keys, kv))
+        self.bind_target(target, V(ty.rec, ty.elem_at_key(src.t, kv)), inner, n)
+        conds = [self.truthy(self.ev(c, inner), c) for c in ifs]
+        b = self.ev(body_node, inner) if body_node is not None else inner.env[target.id]
+        if not (isinstance(b, V) and b.ty == ty.rec):
+            raise OutOfSubset(n, "comprehension over a keyed set whose body is not an element of the same kind")
+        self.oblige(inner, "comp.key-preserving", n, ty.rec.get(b.t, ty.keyfield) == kv, "the body keeps the element's equality key")
+        for h in [h for h in inner.pc if not any(h.eq(o) for o in st.pc)][1:]:
+            st.assume(z3.ForAll([kv], z3.Implies(SQ.has(keys, kv), h)))
+        res = self.fresh(st, ty, "kcomp")
+        rk = s_.keys(res.t)
+        keep = z3.And(SQ.has(keys, kv), *conds)
+        st.assume(SQ.forall([kv], SQ.has(rk, kv) == keep, patterns=[SQ.has(rk, kv), SQ.has(keys, kv)]))
+        st.assume(SQ.forall([kv], z3.Implies(keep, z3.Select(s_.val(res.t), kv) == ty.rec.get(b.t, ty.valfield)), patterns=[z3.Select(s_.val(res.t), kv)]))
+        self.merge_fresh(st, inner)
+        return res
+
     def ev_Set(self, n, st):
         vals = [self.ev(e, st) for e in n.elts]
         ty = self.type_of(vals[0], n)
+        ks = self.keyed_for(ty)
+        if ks is not None and len(vals) == 1:
+            s_ = ks.sort()
+            kk, vv = ks.rec.get(vals[0].t, ks.keyfield), ks.rec.get(vals[0].t, ks.valfield)
+            return V(ks, s_.mk(SQ.unit(SQ.theory(ks.k.sort()).S, kk), z3.Store(z3.K(ks.k.sort(), self.default_of(ks.v)), kk, vv)))
         s = z3.EmptySet(ty.sort())
         for v in vals:
             s = z3.SetAdd(s, self.coerce(v, ty, n).t)
@@ -785,6 +833,10 @@ class Engine:
                 if ty is TStr:
                     return V(TStr, z3.SubString(base.t, pos, 1))
                 return self.untup_lazy(V(ty.elem, SQ.at(base.t, pos)))
+            if isinstance(ty, TKSet):
+                kk = ty.rec.get(idx.t, ty.keyfield)
+                self.require(st, "safe.key", n, SQ.has(ty.sort().keys(base.t), kk), "KeyError")
+                return V(ty.rec, ty.elem_at_key(base.t, kk))
             if isinstance(ty, TDict):
                 k = self.coerce(idx, ty.k, n)
                 s = ty.sort()
@@ -844,10 +896,20 @@ class Engine:
         return self.comprehension(n, st, "list")
 
     def ev_SetComp(self, n, st):
+        if len(n.generators) == 1 and isinstance(n.generators[0].target, ast.Name):
+            src = self.ev(n.generators[0].iter, st)
+            if isinstance(src, V) and isinstance(src.ty, TKSet):
+                return self.kset_comprehension(n, st, src, n.elt, n.generators[0].ifs, n.generators[0].target)
         seq = self.comprehension(n, st, "list")
         return self.call_builtin("set", [seq], {}, n, st)
 
     def ev_DictComp(self, n, st):
+        g = n.generators[0]
+        if (len(n.generators) == 1 and isinstance(g.target, ast.Name) and not g.ifs and isinstance(n.key, ast.Name) and isinstance(n.value, ast.Name)
+                and n.key.id == g.target.id == n.value.id):
+            src = self.ev(g.iter, st)
+            if isinstance(src, V) and isinstance(src.ty, TKSet):
+                return src  # {e: e for e in S}: the identity map over a keyed set (lookup by an equal element returns S's element)
         return self.comprehension(n, st, "dict")
 
     def iter_view(self, it, n, st):
@@ -884,6 +946,9 @@ class Engine:
                 return SQ.length(it.t), (lambda i: V(TStr, z3.SubString(it.t, i, 1)))
             if isinstance(ty, TSeq):
                 return SQ.length(it.t), (lambda i: self.untup(V(ty.elem, SQ.at(it.t, i))))
+            if isinstance(ty, TKSet):
+                ks = ty.sort().keys(it.t)
+                return SQ.length(ks), (lambda i: V(ty.rec, ty.elem_at_key(it.t, SQ.at(ks, i))))
             if isinstance(ty, TDict):
                 ks = ty.sort().keys(it.t)
                 return SQ.length(ks), (lambda i: V(ty.k, SQ.at(ks, i)))
@@ -992,7 +1057,14 @@ class Engine:
             inj = z3.ForAll([j, j2], z3.Implies(z3.And(0 <= j, j < j2, j2 < ln), kterm != kterm2))
             self.oblige(st, "comp.keys-injective", n, inj, "dict comprehension keys must be pairwise distinct for the pointwise encoding")
             if conds:
-                raise OutOfSubset(n, "filtered dict comprehension")
+                # filtered: membership + value characterisation (insertion order of the kept keys is not encoded)
+                kx2 = z3.Const(f"ckf!{st.fresh_n}", kt.sort())
+                st.assume(SQ.forall([kx2], SQ.has(keys, kx2) == SQ.exists([j], z3.And(cond, kterm == kx2), patterns=jpat), patterns=[SQ.has(keys, kx2)]))
+                st.assume(SQ.forall([j], z3.Implies(cond, z3.Select(s.val(res.t), kterm) == vterm), patterns=jpat))
+                st.assume(SQ.length(keys) <= ln)
+                self.notes.append(f"line {n.lineno}: filtered dict comprehension encoded by membership and values (key order not encoded)")
+                self.merge_fresh(st, inner)
+                return res
             st.assume(SQ.length(keys) == ln)
             st.assume(SQ.forall([j], z3.Implies(cond, z3.And(SQ.at(keys, j) == kterm, z3.Select(s.val(res.t), kterm) == vterm)),
                                 patterns=[SQ.at(keys, j)] + jpat))
@@ -1176,6 +1248,8 @@ class Engine:
 
     def apply_contract(self, k, args, kwargs, n, st):
         """Modular call: check `requires`, havoc the result, assume `ensures` (never the body)."""
+        if not hasattr(k, "bind_args"):
+            return k(self, args, kwargs, n, st)  # natively modelled library contract
         env = k.bind_args(args, kwargs, self, n)
         sub = st.fork()
         sub.env = dict(env)
@@ -1199,8 +1273,14 @@ class Engine:
             if self.branch(st, c):
                 raise PyRaise(exc, n)
         for exc, cond in k.raises.items():
-            if cond is None and exc not in self.c.raises and exc not in self._handled:
+            caught = any(self.reg.is_subclass(exc, h) for h in self._handled) or any(self.reg.is_subclass(exc, h) for h in self.c.raises)
+            if cond is None and not caught:
                 self.oblige(st, f"call.raises[{k.short}:{exc}]", n, z3.BoolVal(False), f"{k.target} may raise {exc}, which the caller neither handles nor declares")
+        for exc, cond in k.raises.items():
+            if cond is None and any(self.reg.is_subclass(exc, h) for h in self._handled) and not st.guards and not self._comp_ctx:
+                flag = z3.Bool(f"raises!{k.short}!{exc}!{self.site(n)}")
+                if self.branch(st, flag):
+                    raise PyRaise(exc, n, st=st)
         st.fresh_n = sub.fresh_n
         if k.returns is None:
             res = V(TNone, None)
@@ -1542,6 +1622,12 @@ class Engine:
             if isinstance(t, ast.Subscript):
                 base = self.ev(t.value, st)
                 idx = self.ev(t.slice, st)
+                if isinstance(base, tuple) and base and base[0] == "dictview":
+                    key = self.static_key(idx, s)
+                    if key not in base[1].attrs:
+                        self.require(st, "safe.key", s, z3.BoolVal(False), "KeyError")
+                    base[1].attrs.pop(key, None)
+                    continue
                 new = lib.delete_item(self, base, idx, s, st)
                 self.assign(t.value, new, st, s)
             elif isinstance(t, ast.Attribute):
